@@ -201,6 +201,13 @@ func guardOp(op model.Op, db *model.DB, usesV2 bool) []string {
 		if strings.Contains(v, ".") {
 			add("F-ALIASDOT")
 		}
+		// F-PHCOLLIDE: an alias addresses an attribute named like a placeholder key of the request
+		if _, ok := op.Values[v]; ok {
+			add("F-PHCOLLIDE")
+		}
+		if _, ok := op.Names[v]; ok {
+			add("F-PHCOLLIDE")
+		}
 	}
 	t := db.Tables[op.Table]
 	paths, upd := exprPaths(op)
